@@ -18,7 +18,7 @@ import (
 func init() {
 	register(&propDef{
 		ID:          "C15",
-		Explanation: "Equality with single-file generation over all trees, worker counts and schedules is not decided. Decides the structural reasons it is true: R1 every field of the event handler that has a sibling `<field>Mutex` is accessed (outside the constructor) only with that mutex in the must-held set; R2 every path handed to the file writer, os.WriteFile, os.Create or os.Remove in the per-file handler derives from that event's own file name through TrimSuffix+constant suffix or the development text-file name function (no other file is touched); R3 the bytes written are the result of format.Source over the generator's buffer, the hash gating the write is computed over that same value, and the write sits inside the hash test; R4 the handler's error reaches the error channel, every non-fatal error increments the counter, the command's final return is non-nil when the counter is positive, and in the per-file generator the errors of parsing, generation, formatting and both writes reach a return; R5 both directory walks consult skipdir.ShouldSkip for directories and return SkipDir, and ShouldSkip's true-returns are exactly vendor, node_modules, dot- and underscore-prefixed; R6 (VTA call graph) nothing reachable from generator.Generate or the parser's Parse calls time.Now, math/rand or os.Getenv, and the generator does not range over a map; R7 the wait-group Add and the semaphore acquire precede the `go` statement, the worker defers Done and the release, and the post-generation channel is closed only after the wait. NOT decided: file-system races with other processes, fsnotify delivery.",
+		Explanation: "Equality with single-file generation over all trees, worker counts and schedules is not decided. Decides the structural reasons it is true: R1 every field of the event handler that has a sibling `<field>Mutex` is accessed (outside the constructor) only with that mutex in the must-held set; R2 every path handed to the file writer, os.WriteFile, os.Create or os.Remove in the per-file handler derives from that event's own file name through TrimSuffix+constant suffix or the development text-file name function (no other file is touched); R3 the bytes written are the result of format.Source over the generator's buffer, the hash gating the write is computed over that same value, and the write sits inside the hash test; R4 the handler's error reaches the error channel, every non-fatal error increments the counter, the command's final return is non-nil when the counter is positive, and in the per-file generator the errors of parsing, generation, formatting and both writes reach a return; R5 both directory walks consult skipdir.ShouldSkip for directories and return SkipDir, and ShouldSkip's true-returns are exactly vendor, node_modules, dot- and underscore-prefixed; R6 (VTA call graph) nothing reachable from generator.Generate or the parser's Parse calls time.Now, math/rand or os.Getenv, and the generator does not range over a map; R7 the wait-group Add and the semaphore acquire precede the `go` statement, the worker defers Done and the release, and the post-generation channel is closed only after the wait. R8 a slice field of the handler that per-event methods append to without copying is handed to the constructor without declared spare capacity (no make(…, len, cap>len), no re-slice). NOT decided: file-system races with other processes, fsnotify delivery, spare capacity produced by append's own growth.",
 		Assumptions: []string{"format.Source is deterministic", "sha256 collisions do not occur"},
 		Trusted:     []string{"go/types", "x/tools go/packages, go/cfg, go/ssa, callgraph/vta"},
 		Run:         runC15,
@@ -412,6 +412,8 @@ func runC15(c *Ctx) {
 		}
 	}
 
+	sharedSliceAppends(c)
+
 	// R5 ------------------------------------------------------------
 	wp := c.pkg("cmd/templ/generatecmd/watcher")
 	nwalk := 0
@@ -756,4 +758,123 @@ func errVarOfCond(e ast.Expr) string {
 		return id.Name
 	}
 	return ""
+}
+
+// sharedSliceAppends: C15.R8 — a slice field of the event handler that per-event (concurrent) methods append to without
+// copying must be handed over without spare capacity, otherwise the appends write into one shared backing array.
+func sharedSliceAppends(c *Ctx) {
+	p := c.pkg("cmd/templ/generatecmd")
+	info := p.TypesInfo
+	n := 0
+	for _, fd := range allFuncDecls(p) {
+		if fd.Recv == nil || len(fd.Recv.List[0].Names) != 1 {
+			continue
+		}
+		recv := info.Defs[fd.Recv.List[0].Names[0]]
+		ast.Inspect(fd.Body, func(x ast.Node) bool {
+			call, ok := x.(*ast.CallExpr)
+			if !ok || len(call.Args) < 2 {
+				return true
+			}
+			if id, ok := call.Fun.(*ast.Ident); !ok || id.Name != "append" {
+				return true
+			}
+			se, ok := ast.Unparen(call.Args[0]).(*ast.SelectorExpr)
+			if !ok {
+				return true
+			}
+			rid, ok := se.X.(*ast.Ident)
+			if !ok || info.ObjectOf(rid) != recv {
+				return true
+			}
+			field := se.Sel.Name
+			n++
+			key := fmt.Sprintf("%s|append-to-shared:%s", funcKey(p, fd), field)
+			// how is the field initialised? constructor composite literal: field: <param>
+			why := ""
+			for _, ctor := range allFuncDecls(p) {
+				ast.Inspect(ctor.Body, func(y ast.Node) bool {
+					kv, ok := y.(*ast.KeyValueExpr)
+					if !ok || types.ExprString(kv.Key) != field {
+						return true
+					}
+					pid, ok := kv.Value.(*ast.Ident)
+					if !ok {
+						return true
+					}
+					// index of that parameter
+					pidx := -1
+					i := 0
+					for _, prm := range ctor.Type.Params.List {
+						for _, nm := range prm.Names {
+							if info.Defs[nm] == info.ObjectOf(pid) {
+								pidx = i
+							}
+							i++
+						}
+					}
+					if pidx < 0 {
+						return true
+					}
+					ctorObj := info.Defs[ctor.Name]
+					for _, caller := range allFuncDecls(p) {
+						ast.Inspect(caller.Body, func(z ast.Node) bool {
+							cc, ok := z.(*ast.CallExpr)
+							if !ok || pidx >= len(cc.Args) {
+								return true
+							}
+							if fn := calleeOf(info, cc); fn == nil || types.Object(fn) != ctorObj {
+								return true
+							}
+							aid, ok := cc.Args[pidx].(*ast.Ident)
+							if !ok {
+								return true
+							}
+							ob := info.ObjectOf(aid)
+							// every definition of the argument variable in the caller
+							ast.Inspect(caller.Body, func(w ast.Node) bool {
+								var rhs ast.Expr
+								switch d := w.(type) {
+								case *ast.AssignStmt:
+									for i, l := range d.Lhs {
+										if lid, ok := l.(*ast.Ident); ok && info.ObjectOf(lid) == ob && i < len(d.Rhs) {
+											rhs = d.Rhs[i]
+										}
+									}
+								case *ast.ValueSpec:
+									for i, nm := range d.Names {
+										if info.Defs[nm] == ob && i < len(d.Values) {
+											rhs = d.Values[i]
+										}
+									}
+								}
+								if rhs == nil {
+									return true
+								}
+								switch r := ast.Unparen(rhs).(type) {
+								case *ast.CallExpr:
+									if fid, ok := r.Fun.(*ast.Ident); ok && fid.Name == "make" && len(r.Args) == 3 {
+										l, ok1 := constInt(info, r.Args[1])
+										cp, ok2 := constInt(info, r.Args[2])
+										if !ok1 || !ok2 || cp > l {
+											why = fmt.Sprintf("%s is created with spare capacity (%s) at %s", aid.Name, types.ExprString(rhs), c.pos(rhs.Pos()))
+										}
+									}
+								case *ast.SliceExpr:
+									why = fmt.Sprintf("%s is a re-slice (%s) and may have spare capacity", aid.Name, types.ExprString(rhs))
+								}
+								return true
+							})
+							return true
+						})
+					}
+					return true
+				})
+			}
+			c.check(why == "", "C15.R8", key, c.pos(call.Pos()), "the slice is handed over without declared spare capacity (nil / literal, grown by append only)",
+				fmt.Sprintf("%s appends to the shared field %s without copying it, and %s: concurrent workers write their per-file element into one shared backing array (one file's generator option — e.g. its file name — ends up in another file's output)", fd.Name.Name, field, why))
+			return true
+		})
+	}
+	c.count("appends_to_shared_slice_fields", n)
 }
